@@ -38,7 +38,10 @@ Definition accobs_eqb (a b : accobs) : bool :=
 Inductive case :=
   | CPrim (kd : kind) (srcs : list csrc) (ins : list cinput) (mat : option N) (s : stream)
           (code : nat) (acc : option accobs)
-  | CSource (n ncomp : nat) (code : nat).
+  | CSource (n ncomp : nat) (code : nat)
+  (* a source loaded from a document: S,T,P form or not, n values 1..n, number of <param>s;
+     observed: exception code, or rows / components / data of the loaded source *)
+  | CSourceLoad (stp : bool) (n nparams : nat) (code : nat) (acc : option (nat * nat * list (list Z))).
 
 Definition case_ok (c : case) : bool :=
   match c with
@@ -50,6 +53,14 @@ Definition case_ok (c : case) : bool :=
       end
   | CSource n ncomp code =>
       Nat.eqb code (ocode (float_source (map Z.of_nat (seq 1 n)) ncomp))
+  | CSourceLoad stp n nparams code acc =>
+      match float_source_load stp (map Z.of_nat (seq 1 n)) nparams, acc with
+      | Ok src, Some (rows, nc, data) =>
+          Nat.eqb code 0 && Nat.eqb rows (s_len src) && Nat.eqb nc (s_ncomp src) &&
+          eqb_list (eqb_list Z.eqb) data (s_rows src)
+      | Raise e, None => Nat.eqb code (exn_code e)
+      | _, _ => false
+      end
   end.
 
 Definition mismatches := mismatches_from case_ok 0.
